@@ -7,7 +7,7 @@
 From Coq Require Import Permutation.
 From Oras Require Import Base.Prelude Base.FlatFS Generated.GC18
   Model.Utf8 Model.Json Model.Base64 Model.CredFile Model.JsonDoc Model.JsonRead Model.CredSave Model.CredConc
-  Proofs.Base64 Proofs.Json Proofs.CredFile Proofs.CredSave Proofs.CredConc Proofs.CredJson Proofs.JsonDoc Proofs.JsonRead.
+  Proofs.Base64 Proofs.Json Proofs.CredFile Proofs.CredSave Proofs.CredConc Proofs.CredJson Proofs.JsonDoc Proofs.JsonRead Proofs.JsonFile.
 
 (* Put then Get -- after any further history that does not Put/Delete the same
    address -- returns exactly the stored credential, whatever order Go's map
@@ -523,6 +523,63 @@ Theorem C18_reader_reads_put_entry :
               cred_of_entry b64_decode (Old (entry_bytes b64_encode c) (view_of_jval v)) = RCred c.
 Proof. exact reader_reads_put_entry. Qed.
 Print Assumptions C18_reader_reads_put_entry.
+
+(* END TO END AT BYTE LEVEL, no JSON hypothesis: the first Put on a missing config file
+   (a login on a fresh machine) writes bytes -- MarshalIndent as modelled by
+   render_file -- from which NewFileStore, reading them with the model's JSON reader
+   (Model/JsonRead.v open_bytes), gives a store in which every answer Get can give for
+   that address is the stored credential *)
+Theorem C18_first_put_reopen_bytes :
+  forall a c,
+    put_accepts a c = true -> Forall (fun x => x < 256) (c_user c ++ colon :: c_pass c) ->
+    exists d, st_file (fst (step b64_encode b64_decode fresh_store (Put a c))) = Some d /\
+    exists st2 tops ents,
+      open_bytes (Some (render_file [] [] d)) = Some (st2, tops, ents) /\
+      get_candidates b64_decode (cache_of st2) a = [RCred c].
+Proof. exact first_put_reopen. Qed.
+Print Assumptions C18_first_put_reopen_bytes.
+
+(* ... lifted to histories: after ANY number of accepted Puts for one address on a missing
+   config (login, token refresh, re-login), the bytes on disk reopen to the LAST credential *)
+Theorem C18_repeated_put_reopen_bytes :
+  forall a (cs : list cred) c st,
+    one_addr_shape a st ->
+    Forall (fun c => put_accepts a c = true /\ Forall (fun x => x < 256) (c_user c ++ colon :: c_pass c)) (cs ++ [c]) ->
+    let stf := run b64_encode b64_decode st (map (Put a) (cs ++ [c])) in
+    exists d, st_file stf = Some d /\
+    exists st2 tops ents,
+      open_bytes (Some (render_file [] [] d)) = Some (st2, tops, ents) /\
+      get_candidates b64_decode (cache_of st2) a = [RCred c].
+Proof. exact repeated_put_reopen. Qed.
+Print Assumptions C18_repeated_put_reopen_bytes.
+
+(* the named JSON premise [reads_back] of C18_atomic_op, PROVED for that operation with
+   the real writer (render_file) and the real reader (read_config) ... *)
+Theorem C18_first_put_reads_back :
+  forall a c,
+    put_accepts a c = true -> Forall (fun x => x < 256) (c_user c ++ colon :: c_pass c) ->
+    reads_back b64_encode b64_decode file_writer file_reader views_eq fresh_store (Put a c).
+Proof. exact first_put_reads_back. Qed.
+Print Assumptions C18_first_put_reads_back.
+
+(* ... so the crash clause holds for it down to the bytes: at every crash cut of the
+   save (between two system calls or inside a write, any split of the content over
+   writes, any chain of config directories) the config path is still absent or
+   holds bytes that the reader reads as the document with the stored entry, mode 0600 *)
+Theorem C18_first_put_crash_bytes :
+  forall a c (chunking : str -> list str) (dir : list path) (p t : path) s pre,
+    (forall x, concat (chunking x) = x) ->
+    put_accepts a c = true -> Forall (fun x => x < 256) (c_user c ++ colon :: c_pass c) ->
+    t <> p -> fget t s = None -> fget p s = None ->
+    crash_cut (op_steps b64_encode b64_decode file_writer chunking dir p t fresh_store (Put a c)) pre ->
+    let d := one_entry_doc a (encode_auth b64_encode (c_user c) (c_pass c)) (c_refresh c) (c_access c) in
+    let s' := exec_all s pre in
+    (fget p s' = None \/
+     disk_is file_reader views_eq p s' (Some d) /\ exists f, fget p s' = Some f /\ f_mode f = mode_file) /\
+    (pre = op_steps b64_encode b64_decode file_writer chunking dir p t fresh_store (Put a c) ->
+     disk_is file_reader views_eq p s' (Some d)).
+Proof. exact first_put_crash_bytes. Qed.
+Print Assumptions C18_first_put_crash_bytes.
 
 (* the BYTES saveFile writes (Model/JsonDoc.v render_file = json.MarshalIndent of the
    content map, compared byte for byte with the real file on every run) do not
